@@ -1,11 +1,22 @@
 SPECIFICATION Spec
 CONSTANTS
   WithReserved = TRUE
+  Dev = "none"
   Headers <- McHeaders
   SpsCounts = {0, 1, 2}
   PpsCounts = {0, 1, 3}
   NalCounts = {0, 1, 2, 3}
   SizePatterns <- McPatterns
+  PosSizes = {1, 2, 3, 5}
+  PosCounts = {1, 2, 3}
+  RecPosSizes = {1, 2, 4}
+  RecPosCounts = {0, 1, 2}
+  PosHeaders <- McPosHeaders
+  MimicSizes = {1, 4, 5, 6, 9}
+  Mimics <- McMimics
+  MimicCounts = {1, 2}
+  HeaderMatrix <- McMatrix
+  MatrixLsm1 = {0, 3}
   MaxBytes = 100
 INVARIANTS SizeOk RoundTrip Canonical ReservedOk
 CHECK_DEADLOCK FALSE
